@@ -310,6 +310,42 @@ def generate(rng, opts):
                     modules[user]["stmts"].append({"s": "star", "mod": f"{holder}.m"})
                     if rng.random() < 0.5:
                         modules[x]["stmts"].append({"s": "star", "mod": user})
+    ring_motif = False
+    if rng.random() < 0.04:
+        # motif: modules that publicly re-export each other (or one of their own parents) in a world without any
+        # docstring - `has_docstrings` then has to look into everything (random generation lines this up about once
+        # in 15,000 histories; it was behind the repaired C06-KF1)
+        own = [mp for mp in modules if mp.split(".")[0] in layout]
+        x = rng.choice(own)
+        y = rng.choice([mp for mp in own if mp != x] or [x])
+        if rng.random() < 0.4 and "." in x:
+            y = x.rsplit(".", 1)[0]  # one of its own parents
+        for a, b, nm in ((x, y, "ry"), (y, x, "rx")):
+            if "." in b:
+                parent, leaf = b.rsplit(".", 1)
+                modules[a]["stmts"].append({"s": "from", "mod": parent, "name": leaf, "as": nm})
+            else:
+                modules[a]["stmts"].append({"s": "import", "mod": b, "as": nm})
+            modules[a]["stmts"].append({"s": "all", "names": [nm]})
+
+        def _strip(stmts):
+            out = []
+            for st in stmts:
+                if st["s"] == "doc":
+                    continue
+                st = dict(st)
+                if "doc" in st:
+                    st["doc"] = False
+                if st["s"] == "class":
+                    st["body"] = _strip(st["body"])
+                if st["s"] == "guarded":
+                    st["stmt"] = _strip([st["stmt"]])[0] if _strip([st["stmt"]]) else st["stmt"]
+                out.append(st)
+            return out
+
+        for mp in modules:
+            modules[mp]["stmts"] = _strip(modules[mp]["stmts"])
+        ring_motif = True
     stubs = {}
     if cfg["external"] and rng.random() < 0.3:
         # top-level stubs next to an external package; broken stubs make its on-demand load fail *after* the runtime
@@ -370,6 +406,9 @@ def generate(rng, opts):
             ops.append({"op": "load", "pkg": rng.choice(["nopkg", "ext", "p"]), "loader": rng.randrange(2)})
     if rng.random() < 0.5:
         ops.append({"op": "resolve", "loader": 0, "implicit": True, "external": rng.choice([True, False, None]), "max_iter": None})
+    if ring_motif:
+        for _ in range(6):
+            ops.append({"op": "deref", "k": rng.randrange(64), "acc": "has_docstrings"})
     if rng.random() < 0.3:
         ops.append({"op": "json"})
     cwd_entries = []
